@@ -141,6 +141,8 @@ def conforms(real, exp: Exp, ctx: str):
         raise
     # the span observers derive from start and rows; read after every operation they also expose a memo of an earlier
     # span that an in-place operation forgot to drop
+    if n > 200000:
+        return ("refine", f"{ctx}: the series reports {n} periods from serial {lo}: no history of this world makes one that long")
     per = real.periods
     if len(per) != n or real.num_periods != n or (n and (int(per[0].serial) != lo or int(per[-1].serial) != hi)):
         return ("cover", f"{ctx}: periods/num_periods report {len(per)} periods" + (f" on serials [{int(per[0].serial)},{int(per[-1].serial)}]" if len(per) else "") + f", start and rows give [{lo},{hi}]")
